@@ -12,5 +12,6 @@ func controlsC13() []Control {
 		{Name: "ante completion ignores PayAnte failure", Expect: "R2", Mutate: replaceIn("(*game).onAnteRequested", "if err != nil {\n\t\t\tg.onGameErrorUpdated(gs, err)\n\t\t\treturn\n\t\t}", "_ = err", 0)},
 		{Name: "open-game callback drops the open error", Expect: "R3", Mutate: replaceIn("(*tableEngine).CreateTable", "te.emitErrorEvent(\"OnOpenGameReady#tableGameOpen\", \"\", err)", "_ = err", 0)},
 		{Name: "PlayerFold records the fold before the hand accepted it", Expect: "R4", Mutate: replaceIn("(*tableEngine).PlayerFold", "gs, err := te.game.Fold(gamePlayerIdx)", "te.table.State.PlayerStates[playerIdx].GameStatistics.IsFold = true\n\tgs, err := te.game.Fold(gamePlayerIdx)", 0)},
+		{Name: "hand error handler returns early on a nil state", Expect: "R3", Mutate: replaceIn("(*tableEngine).startGame", "\t\tte.table.State.GameState = gs\n\t\tgo te.emitErrorEvent", "\t\tif gs == nil {\n\t\t\treturn\n\t\t}\n\t\tte.table.State.GameState = gs\n\t\tgo te.emitErrorEvent", 0)},
 	}
 }
